@@ -17,8 +17,8 @@ PROP = {
                   "lines, a drawn subset biased to ends and aligned lines otherwise), a value in every gap, values "
                   "before the first and after the last are sought and the error class and the following reads are "
                   "compared with the model; a two-file reader (rotated + current; either may be missing or empty) "
-                  "runs drawn histories of SeekStart / seek / read / read-to-end. Every operation runs under a 10 s "
-                  "watchdog and the probe count is bounded by 100. Exploration: no absence claim; the window-edge "
+                  "runs drawn histories of SeekStart / seek / read / read-to-end. Every operation runs under a watchdog "
+                  "of 10 s CPU time and the probe count is bounded by 100. Exploration: no absence claim; the window-edge "
                   "arithmetic is covered by construction and the reached offsets are measured on the reader.",
     "level_note": "White-box: drives the unexported qLogFile/qLogReader and reads qLogFile.position/bufferStart for "
                   "coverage accounting only (never for the verdict). 'Without mis-positioning subsequent reads' is read as: "
@@ -30,9 +30,9 @@ PROP = {
                   "unparsable timestamps are outside the property's domain and not generated. Trusts the time "
                   "package for formatting/parsing RFC 3339 timestamps and the OS for regular-file reads.",
     "tests": [
-        ("TestVFC20FileReverse", (600, 5000)),
-        ("TestVFC20FileSeek", (400, 2500)),
-        ("TestVFC20Reader", (800, 5000)),
+        ("TestVFC20FileReverse", (600, 4000)),
+        ("TestVFC20FileSeek", (400, 2000)),
+        ("TestVFC20Reader", (800, 4000)),
     ],
     "plain": ["TestVFC20Regress"],
     "shards": (4, 16),
@@ -50,7 +50,7 @@ PROP = {
     "assumptions": [
         "Go's time package formats and parses RFC 3339 timestamps consistently (reference timestamps are UnixNano values)",
         "reads of regular files return the requested bytes except at end of file",
-        "the 10 s per-operation watchdog separates termination from looping (operations take micro- to milliseconds)",
+        "the per-operation watchdog of 10 s of process CPU time separates termination from looping (operations take micro- to milliseconds of CPU)",
     ],
     "require_classes": {"thorough": [
         "file:>window", "file:>2_windows", "file:window_exact", "file:empty", "file:one_line",
